@@ -429,3 +429,113 @@ Proof.
   eapply re_match_groups; [|apply re_create_saves; exact Ec|exact Em].
   pose proof (re_groups_nonneg pat). lia.
 Qed.
+
+(* ---- termination of compile_char_class: the expansion of a range, and the whole class of any pattern the parser accepts *)
+Definition byte (c : Z) : Prop := 0 <= c <= 255.
+
+Lemma range_expand_eq : forall ctr f ch hi,
+  range_expand ctr (S f) ch hi =
+    if ch <=? hi then rbind (range_expand ctr f (ctr (ch + 1)) hi) (fun r => Ok (ch :: r)) else Ok [].
+Proof. reflexivity. Qed.
+
+(* `int` counter: hi + 1 - ch members and one more test; the members are exactly ch..hi *)
+Lemma range_expand_int : forall f ch hi, (Z.to_nat (hi + 1 - ch) < f)%nat ->
+  exists l, range_expand ctr_int f ch hi = Ok l /\ forall x, In x l <-> ch <= x <= hi.
+Proof.
+  induction f as [|f IH]; intros ch hi H; [lia|].
+  rewrite range_expand_eq. destruct (ch <=? hi) eqn:E.
+  - apply Z.leb_le in E. change (ctr_int (ch + 1)) with (ch + 1).
+    destruct (IH (ch + 1) hi) as [l [Hl Hm]]; [lia|].
+    rewrite Hl. cbn [rbind]. exists (ch :: l). split; [reflexivity|].
+    intro x. cbn [In]. rewrite Hm. lia.
+  - apply Z.leb_gt in E. exists []. split; [reflexivity|]. intro x. cbn [In]. lia.
+Qed.
+
+Lemma range_expand_total : forall c e, 0 <= c -> e <= 255 ->
+  exists l, range_expand ctr_int range_fuel c e = Ok l /\ forall x, In x l <-> c <= x <= e.
+Proof. intros c e Hc He. apply range_expand_int. unfold range_fuel. lia. Qed.
+
+(* an 8 bit counter never gets past an upper bound of 255: no fuel suffices (the loop does not terminate) *)
+Lemma range_expand_u8_loops : forall f c, byte c -> range_expand ctr_u8 f c 255 = Fuel.
+Proof.
+  induction f as [|f IH]; intros c Hc; [reflexivity|].
+  rewrite range_expand_eq. unfold byte in Hc. destruct (c <=? 255) eqn:E; [|apply Z.leb_gt in E; lia].
+  rewrite IH; [reflexivity|]. unfold ctr_u8, byte. pose proof (Z.mod_pos_bound (c + 1) 256). lia.
+Qed.
+
+Lemma cls_scan_eq : forall f first s,
+  cls_scan (S f) first s =
+    rbind (pk s) (fun ch =>
+    let s1 := tl s in
+    if ch =? 0 then Ok None
+    else if (ch =? 93) && negb first then Ok (Some s1)
+    else
+      rbind (if ch =? 92 then pk s1 else Ok ch) (fun c =>
+      let s2 := if ch =? 92 then tl s1 else s1 in
+      if (ch =? 92) && (c =? 0) then Ok None else
+      rbind (pk s2) (fun d =>
+      if d =? 45 then
+        rbind (pk (tl s2)) (fun e =>
+        if negb (e =? 93) then
+          if (e =? 0) || (e <? c) then Ok None else cls_scan f false (tl (tl s2))
+        else cls_scan f false s2)
+      else cls_scan f false s2))).
+Proof. reflexivity. Qed.
+
+Lemma cls_set_eq : forall f first s,
+  cls_set (S f) first s =
+    rbind (pk s) (fun ch =>
+    let s1 := tl s in
+    if (ch =? 93) && negb first then Ok []
+    else
+      rbind (if ch =? 92 then pk s1 else Ok ch) (fun c =>
+      let s2 := if ch =? 92 then tl s1 else s1 in
+      rbind (pk s2) (fun d =>
+      if d =? 45 then
+        rbind (pk (tl s2)) (fun e =>
+        if negb (e =? 93) then
+          rbind (range_expand ctr_int range_fuel c e) (fun m => rbind (cls_set f false (tl (tl s2))) (fun r => Ok (m ++ r)))
+        else rbind (cls_set f false s2) (fun r => Ok (c :: r)))
+      else rbind (cls_set f false s2) (fun r => Ok (c :: r))))).
+Proof. reflexivity. Qed.
+
+Lemma pk_byte : forall s c, Forall byte s -> pk s = Ok c -> byte c.
+Proof. intros [|h t] c H E; [discriminate|]. inversion E; subst. inversion H; assumption. Qed.
+Lemma Forall_tl : forall (s : list Z), Forall byte s -> Forall byte (tl s).
+Proof. intros [|h t] H; [constructor|inversion H; assumption]. Qed.
+
+(* whatever bracket expression parse_char_class accepts, compile_char_class walks it to its closing ] and expands every
+   range within the loop bound: it terminates (with the same fuel = length of the text + 1) and yields a member list *)
+Lemma cls_set_total : forall f first s rest, Forall byte s ->
+  cls_scan f first s = Ok (Some rest) -> exists set, cls_set f first s = Ok set.
+Proof.
+  induction f as [|f IH]; intros first s rest Hb H; [discriminate|].
+  rewrite cls_scan_eq in H. rewrite cls_set_eq.
+  destruct (pk s) as [ch| |] eqn:Ech; try discriminate. cbn [rbind] in H |- *. cbv zeta in H |- *.
+  destruct (ch =? 0); [discriminate|].
+  destruct ((ch =? 93) && negb first); [eexists; reflexivity|].
+  assert (Hb1 : Forall byte (tl s)) by (apply Forall_tl; exact Hb).
+  destruct (if ch =? 92 then pk (tl s) else Ok ch) as [c| |] eqn:Ec; try discriminate. cbn [rbind] in H |- *.
+  assert (Bc : byte c).
+  { destruct (ch =? 92); [eapply pk_byte; [exact Hb1|exact Ec]|inversion Ec; subst; eapply pk_byte; [exact Hb|exact Ech]]. }
+  set (s2 := if ch =? 92 then tl (tl s) else tl s) in *.
+  assert (Hb2 : Forall byte s2) by (unfold s2; destruct (ch =? 92); [apply Forall_tl|]; exact Hb1).
+  destruct ((ch =? 92) && (c =? 0)); [discriminate|].
+  destruct (pk s2) as [d| |]; try discriminate. cbn [rbind] in H |- *.
+  assert (REC : forall t, Forall byte t -> cls_scan f false t = Ok (Some rest) ->
+                exists set, rbind (cls_set f false t) (fun r => Ok (c :: r)) = Ok set).
+  { intros t Ht Hs. destruct (IH false t rest Ht Hs) as [r Hr]. rewrite Hr. eexists; reflexivity. }
+  destruct (d =? 45); [|apply REC; assumption].
+  destruct (pk (tl s2)) as [e| |] eqn:Ee; try discriminate. cbn [rbind] in H |- *.
+  assert (Be : byte e) by (eapply pk_byte; [apply Forall_tl; exact Hb2|exact Ee]).
+  destruct (negb (e =? 93)); [|apply REC; assumption].
+  destruct ((e =? 0) || (e <? c)); [discriminate|].
+  destruct (range_expand_total c e) as [m [Hm _]]; [unfold byte in Bc; lia|unfold byte in Be; lia|].
+  rewrite Hm. cbn [rbind].
+  destruct (IH false (tl (tl s2)) rest) as [r Hr]; [apply Forall_tl, Forall_tl; exact Hb2|exact H|].
+  rewrite Hr. eexists; reflexivity.
+Qed.
+
+Lemma cls_set_total_top : forall from rest, Forall byte from ->
+  cls_scan (S (length from)) true from = Ok (Some rest) -> exists set, cls_set (S (length from)) true from = Ok set.
+Proof. intros from rest Hb H. eapply cls_set_total; eassumption. Qed.
